@@ -8,37 +8,133 @@ import (
 	"verif/mon"
 )
 
-// writeChunked writes data to w in PRNG-chosen chunk sizes (exercises the
-// buffering of streaming writers: line breaker, base64, partial lengths).
-func writeChunked(w io.Writer, data []byte, r *rand.Rand) error {
-	mode := r.IntN(5)
-	for len(data) > 0 {
-		var n int
-		switch mode {
-		case 0:
-			n = len(data)
-		case 1:
-			n = 1 + r.IntN(3)
-		case 2:
-			n = mon.Pick(r, []int{47, 48, 49, 63, 64, 65})
-		case 3:
-			n = 1 + r.IntN(700)
-		default:
-			n = mon.Pick(r, []int{511, 512, 513, 1024, 4096})
+// curMon is the monitor of the running check (one check per process); the
+// streaming helpers report contract violations and coverage counters to it.
+var curMon *mon.M
+
+// io.Writer contract: "Write must not modify the slice data, even temporarily.
+// Implementations must not retain p." Every plaintext/body handed to a streaming
+// writer of the package goes through ONE reused buffer that is scribbled over
+// as soon as Write returns; a writer that keeps a reference to it then works on
+// garbage and the round-trip / signature oracles see it.
+
+// isWS: the octets clearsign treats as pending white space.
+func isWS(b byte) bool { return b == ' ' || b == '\t' || b == '\r' }
+
+// planCuts picks cut positions (sorted, in (0,len)) for a multi-chunk write.
+func planCuts(data []byte, r *rand.Rand) []int {
+	n := len(data)
+	if n < 2 {
+		return nil
+	}
+	var cuts []int
+	switch r.IntN(7) {
+	case 0: // one Write
+	case 1: // one-octet chunks (bounded)
+		if n <= 400 {
+			for p := 1; p < n; p++ {
+				cuts = append(cuts, p)
+			}
+		} else {
+			for p := 1 + r.IntN(3); p < n; p += 1 + r.IntN(3) {
+				cuts = append(cuts, p)
+			}
 		}
-		if n > len(data) {
-			n = len(data)
+	case 2, 3: // chunks ending right after ' ', '\t', '\r', "\r\n", '\n' and a '-' at line start
+		for p := 1; p < n; p++ {
+			c := data[p-1]
+			special := isWS(c) || c == '\n' || (c == '-' && (p == 1 || data[p-2] == '\n'))
+			if (special && r.IntN(2) == 0) || r.IntN(97) == 0 {
+				cuts = append(cuts, p)
+			}
 		}
-		if _, err := w.Write(data[:n]); err != nil {
+	case 4:
+		for p := 1 + r.IntN(700); p < n; p += 1 + r.IntN(700) {
+			cuts = append(cuts, p)
+		}
+	case 5:
+		for p := mon.Pick(r, []int{47, 48, 49, 63, 64, 65}); p < n; p += mon.Pick(r, []int{47, 48, 49, 63, 64, 65}) {
+			cuts = append(cuts, p)
+		}
+	default:
+		for p := mon.Pick(r, []int{511, 512, 513, 1024, 4096}); p < n; p += mon.Pick(r, []int{511, 512, 513, 1024, 4096}) {
+			cuts = append(cuts, p)
+		}
+	}
+	return cuts
+}
+
+// writeCuts writes data to w chunk by chunk (cut positions given) through one
+// reused, scribbled buffer. name identifies the writer in counters and keys.
+func writeCuts(name string, w io.Writer, data []byte, cuts []int) error {
+	m := curMon
+	buf := make([]byte, 0, len(data))
+	prev := 0
+	bounds := append(append([]int(nil), cuts...), len(data))
+	if len(data) == 0 {
+		bounds = nil
+	}
+	for ci, end := range bounds {
+		chunk := data[prev:end]
+		buf = append(buf[:0], chunk...) // same backing array every time
+		k, err := w.Write(buf)
+		if err != nil {
 			return err
 		}
-		data = data[n:]
+		if k != len(chunk) {
+			m.Violation("writer-short-write-without-error:"+name, map[string]any{"wrote": k, "of": len(chunk)})
+		}
+		if !bytes.Equal(buf, chunk) {
+			m.Violation("writer-modifies-caller-buffer:"+name, map[string]any{"chunk": mon.Hex(chunk), "after_write": mon.Hex(buf)})
+		}
+		// the caller reuses its buffer
+		if ci%2 == 0 {
+			for j := range buf {
+				buf[j] = 0xAA
+			}
+		} else {
+			for j, k := 0, len(buf)-1; j < k; j, k = j+1, k-1 {
+				buf[j], buf[k] = buf[k], buf[j]
+			}
+			if len(buf) == 1 {
+				buf[0] ^= 0xFF
+			}
+		}
+		if end < len(data) && len(chunk) > 0 {
+			last := chunk[len(chunk)-1]
+			if isWS(last) {
+				m.Count("chunk_ends_after_whitespace:"+name, 1)
+				next := data[end]
+				if end >= 2 && !isWS(data[end-2]) && data[end-2] != '\n' && !isWS(next) && next != '\n' {
+					m.Count("chunk_ends_after_lone_midline_whitespace:"+name, 1)
+				}
+			}
+			if last == '-' && (end == 1 || data[end-2] == '\n') {
+				m.Count("chunk_ends_after_dash_at_line_start:"+name, 1)
+			}
+			if last == '\n' && end >= 2 && data[end-2] == '\r' {
+				m.Count("chunk_ends_after_crlf:"+name, 1)
+			}
+		}
+		prev = end
+	}
+	if len(cuts) > 0 {
+		m.Count("chunked_writes:"+name, 1)
+		m.Count("chunks_written:"+name, len(cuts)+1)
+	} else {
+		m.Count("single_writes:"+name, 1)
 	}
 	return nil
 }
 
-// readChunked reads rd to EOF with PRNG-chosen buffer sizes; returns what was
-// read and the first non-EOF error.
+// writeChunked = writeCuts with PRNG-chosen cuts.
+func writeChunked(name string, w io.Writer, data []byte, r *rand.Rand) error {
+	return writeCuts(name, w, data, planCuts(data, r))
+}
+
+// readChunked reads rd to EOF through a small reused buffer that is scribbled
+// over after every Read (a reader must not expect the caller to keep it);
+// returns what was read and the first non-EOF error.
 func readChunked(rd io.Reader, r *rand.Rand) ([]byte, error) {
 	mode := r.IntN(4)
 	if mode == 0 {
@@ -59,6 +155,12 @@ func readChunked(rd io.Reader, r *rand.Rand) ([]byte, error) {
 		}
 		k, err := rd.Read(buf[:n])
 		out.Write(buf[:k])
+		for j := 0; j < n; j++ {
+			buf[j] = 0x55
+		}
+		if curMon != nil {
+			curMon.Count("small_buffer_reads", 1)
+		}
 		if err == io.EOF {
 			return out.Bytes(), nil
 		}
@@ -71,6 +173,59 @@ func readChunked(rd io.Reader, r *rand.Rand) ([]byte, error) {
 			}
 		} else {
 			zero = 0
+		}
+	}
+}
+
+// inputGuard snapshots inputs handed to the package (messages, armored text,
+// signatures, passphrases, header maps) and verifies afterwards that the
+// package has not written to them.
+type inputGuard struct {
+	names []string
+	refs  [][]byte
+	snaps [][]byte
+	hdr   map[string]string
+	hdrS  map[string]string
+}
+
+func guardInputs(pairs ...any) *inputGuard {
+	g := &inputGuard{}
+	for i := 0; i+1 < len(pairs); i += 2 {
+		name := pairs[i].(string)
+		switch v := pairs[i+1].(type) {
+		case []byte:
+			g.names = append(g.names, name)
+			g.refs = append(g.refs, v)
+			g.snaps = append(g.snaps, append([]byte(nil), v...))
+		case map[string]string:
+			g.hdr = v
+			g.hdrS = map[string]string{}
+			for k, x := range v {
+				g.hdrS[k] = x
+			}
+		}
+	}
+	return g
+}
+
+func (g *inputGuard) check(where string) {
+	m := curMon
+	m.Count("input_snapshots_verified", len(g.refs))
+	for i := range g.refs {
+		if !bytes.Equal(g.refs[i], g.snaps[i]) {
+			m.Violation("package-modifies-caller-input:"+where+":"+g.names[i], map[string]any{"before": mon.Hex(g.snaps[i]), "after": mon.Hex(g.refs[i])})
+		}
+	}
+	if g.hdrS != nil {
+		m.Count("input_snapshots_verified", 1)
+		same := len(g.hdr) == len(g.hdrS)
+		for k, v := range g.hdrS {
+			if x, ok := g.hdr[k]; !ok || x != v {
+				same = false
+			}
+		}
+		if !same {
+			m.Violation("package-modifies-caller-input:"+where+":header-map", map[string]any{"before": g.hdrS, "after": g.hdr})
 		}
 	}
 }
